@@ -121,6 +121,20 @@ def design(prog, rep):
     ys = IT(t, 1)
     xs_ = IT(t, 0)
     fx = fy = None
+    # the ordinates the maximum is taken of: the crossing points, possibly joined with the contour vertices lying ON the probe line
+    # (y1[x1 == x2]: an edge of the contour that lies on the line has no single crossing point, intersection() reports none for it)
+    ymax_of = None
+    ext = []
+    for ya in (y1, closed_series(y1)):
+        for xa in (x1, closed_series(x1)):
+            if x2 is None or ya is None or xa is None:
+                continue
+            for on in (("sub", ya, CMP("==", xa, x2)), ("sub", ya, CMP("==", x2, xa)), ("sub", ya, ("call", G("numpy.isclose"), (xa, x2), ())),
+                       ("sub", ya, ("call", G("numpy.equal"), (xa, x2), ()))):
+                ext += [("call", G("numpy.append"), (ys, on), ()), ("call", G("numpy.append"), (on, ys), ()),
+                        ("call", G("numpy.concatenate"), (("list", (ys, on)),), ()), ("call", G("numpy.concatenate"), (("tuple", (ys, on)),), ()),
+                        ("call", G("numpy.concatenate"), (("list", (on, ys)),), ()), ("call", G("numpy.concatenate"), (("tuple", (on, ys)),), ()),
+                        ("call", G("numpy.r_"), (ys, on), ()), ("call", G("numpy.hstack"), (("tuple", (ys, on)),), ()), ("call", G("numpy.hstack"), (("list", (ys, on)),), ())]
     for s in cfg.all_stmts():
         if isinstance(s, ast.Expr) and isinstance(s.value, ast.Call) and isinstance(s.value.func, ast.Attribute) and s.value.func.attr == "append" and cfg.enclosing_loops(s):
             a = b.term(s.value.args[0], s)
@@ -131,8 +145,9 @@ def design(prog, rep):
                 a = live[0]
             if a == x2:
                 fx = (s, s.value.func.value.id)
-            elif a in (("call", G("numpy.max"), (ys,), ()), ("call", G("max"), (ys,), ())):
+            elif a[0] == "call" and a[1] in (G("numpy.max"), G("max")) and len(a[2]) == 1 and not a[3] and a[2][0] in [ys] + ext:
                 fy = (s, s.value.func.value.id)
+                ymax_of = a[2][0]
             else:
                 rep.fail("C17.result", f"{q}:append", fn.where(s), f"a design condition must pair the requested abscissa with np.max of the intersection ordinates; appended {show(a)[:100]}")
     rep.check(fx is not None and fy is not None, "C17.result", f"{q}:pair", site, "(x2, np.max(y)) appended per abscissa",
@@ -150,7 +165,7 @@ def design(prog, rep):
         lp = cfg.enclosing_loops(fx[0])[-1]
         outer = set(pcs.of(lp))
         def nonempty(l):
-            for ser in (ys, xs_):
+            for ser in ((ymax_of,) if ymax_of in ext else (ys, xs_)):
                 ln = ("call", G("len"), (ser,), ())
                 if l in (("not", CMP("==", ln, ("const", 0))), CMP(">", ln, ("const", 0)), CMP(">=", ln, ("const", 1)), ln,
                          ("not", CMP("<", ln, ("const", 1))), ("not", CMP("<=", ln, ("const", 0))), ("not", ("not", ln)),
@@ -164,6 +179,16 @@ def design(prog, rep):
                 skip_at = fn.where(s_)
     rep.check(oks, "C17.result", f"{q}:skip", skip_at, "no intersection -> abscissa skipped, any intersection -> recorded",
               "an abscissa is skipped exactly when it does not cross the contour (len(y) == 0): the appends must run under 'the intersection is not empty' and under nothing else")
+    # a contour edge lying on the probe line: intersection() solves a 4x4 system per pair of segments and drops the singular ones
+    # (parallel segments, its LinAlgError handler), so the ordinates of such an edge come only from the vertices themselves
+    inter = prog.func("virocon._intersection.intersection")
+    rep.analysed(inter)
+    drops_parallel = any(isinstance(h, ast.ExceptHandler) and h.type is not None and "LinAlgError" in ast.unparse(h.type) for h in ast.walk(inter.node))
+    if fy is not None and drops_parallel:
+        rep.check(ymax_of in ext, "C17.result", f"{q}:on-line", fn.where(fy[0]), "the ordinates include the contour vertices lying on the probe line",
+                  "a contour edge that lies on the probe line (a vertical edge at a requested abscissa, e.g. the side of a rectangle or of a grid-aligned "
+                  "highest-density contour) is parallel to the probe, intersection() reports no point for it: the abscissa is skipped or gets a smaller "
+                  "ordinate from another crossing although the contour reaches higher there; the maximum must also run over y1[x1 == x2]")
     rets = [s for s in cfg.all_stmts() if isinstance(s, ast.Return)]
     rt = b.term(rets[-1].value, rets[-1]) if rets else None
     okr = rt is not None and rt[0] == "cols" and len(rt[1]) == 2 and fx is not None and fy is not None
